@@ -38,7 +38,11 @@ fn gen(r: &mut Rng, _cfg: &RunCfg) -> Case {
 
 /// Segmentation boundaries (byte offsets relative to the paragraph) of the
 /// configured separator and splitter, taken in context on the whole paragraph.
-fn boundaries(para: &str, o: &OptSpec) -> Vec<usize> {
+/// Assume-guarantee with C12: if the library's split points differ from the
+/// harness's reference rule for some word, None is returned and the case is
+/// deferred to C12 (which reports the rule violation) instead of being judged
+/// here with either set.
+fn boundaries(para: &str, o: &OptSpec) -> Option<Vec<usize>> {
     let mut out = Vec::new();
     let mut p = 0usize;
     let splitter = o.split_build();
@@ -46,13 +50,16 @@ fn boundaries(para: &str, o: &OptSpec) -> Vec<usize> {
         if p > 0 {
             out.push(p);
         }
-        // the configured splitter's own split points (whether they follow the hyphen rule is C12's business)
-        for sp in splitter.split_points(w.word) {
+        let lib = splitter.split_points(w.word);
+        if lib != crate::oracle::words::ref_split_points(o.split, w.word) {
+            return None;
+        }
+        for sp in lib {
             out.push(p + sp);
         }
         p += w.word.len() + w.whitespace.len();
     }
-    out
+    Some(out)
 }
 
 pub fn check(case: &Case, obs: &mut Obs) -> Verdict {
@@ -104,7 +111,10 @@ pub fn check(case: &Case, obs: &mut Obs) -> Verdict {
                 .copied()
                 .unwrap_or((0, text));
             let (s, e) = (pl.start - poff, pl.end.saturating_sub(poff).min(para.len()));
-            !boundaries(para, o).iter().any(|b| s < *b && *b < e)
+            match boundaries(para, o) {
+                Some(bs) => !bs.iter().any(|b| s < *b && *b < e),
+                None => return Verdict::Skipped("split points differ from the splitter's specified rule (deferred to C12)"),
+            }
         };
         if !exempt {
             return Verdict::Violated(format!(
